@@ -956,6 +956,49 @@ pub fn family_king_rays(color: u8, n_cfg: usize, first: usize) -> Vec<Pos> {
     out
 }
 
+/// Castling with the king's own pawns in front of it: king and rook(s) at home with rights, every subset of the
+/// pawns on the c/d/e/f/g files of the second rank (the squares in front of the king's path), the enemy king on
+/// one of a few squares, one enemy queen/rook/bishop/knight anywhere. White built directly, black by mirroring.
+pub fn family_castle_shield(color: u8, rights_cfg: usize) -> Vec<Pos> {
+    let mut out = Vec::new();
+    let shield_files: [i8; 5] = [2, 3, 4, 5, 6];
+    for mask in 0..32u32 {
+        for ek in [rules::sq_from_name("e8").unwrap(), rules::sq_from_name("a8").unwrap(), rules::sq_from_name("h5").unwrap()] {
+            let mut base = Pos::empty();
+            base.b[rules::sq_from_name("e1").unwrap() as usize] = rules::pc(rules::WHITE, rules::K);
+            base.b[ek as usize] = rules::pc(rules::BLACK, rules::K);
+            if rights_cfg != 1 {
+                base.b[rules::sq_from_name("h1").unwrap() as usize] = rules::pc(rules::WHITE, rules::R);
+                base.rights |= rules::WK;
+            }
+            if rights_cfg != 0 {
+                base.b[rules::sq_from_name("a1").unwrap() as usize] = rules::pc(rules::WHITE, rules::R);
+                base.rights |= rules::WQ;
+            }
+            for (i, f) in shield_files.iter().enumerate() {
+                if mask & (1 << i) != 0 {
+                    base.b[rules::sq_at(*f, 1).unwrap() as usize] = rules::pc(rules::WHITE, rules::P);
+                }
+            }
+            for kind in [rules::Q, rules::R, rules::B, rules::N] {
+                for sq in 0..64u8 {
+                    if base.b[sq as usize] != rules::EMPTY {
+                        continue;
+                    }
+                    let mut p = base;
+                    p.b[sq as usize] = rules::pc(rules::BLACK, kind);
+                    p.stm = rules::WHITE;
+                    let q = if color == rules::WHITE { p } else { p.mirror() };
+                    if q.is_legal_position() {
+                        out.push(q);
+                    }
+                }
+            }
+        }
+    }
+    out
+}
+
 /// two further pieces (thorough): wk fixed per work item
 pub fn family_kkxy(wk: u8, bk: u8) -> Vec<Pos> {
     let mut out = Vec::new();
@@ -1462,6 +1505,15 @@ pub fn run(rep: &Report, focus: Focus) -> E1Result {
             items,
             if follow { 1 } else { 0 },
         );
+        {
+            let mut items: Vec<Item> = Vec::new();
+            for c in [rules::WHITE, rules::BLACK] {
+                for cfg in 0..3usize {
+                    items.push(Box::new(move || family_castle_shield(c, cfg)));
+                }
+            }
+            run_family("castle-shield (king and rook(s) at home with rights, every subset of the own pawns on c2..g2, one enemy queen/rook/bishop/knight anywhere)", items, 0);
+        }
         if !quick {
             // second piece: every enemy piece type (attackers of the transit squares) and an own knight (blocker)
             let mut items: Vec<Item> = Vec::new();
